@@ -6,11 +6,14 @@ from ..summary import Item, items, is_ok, bv
 from .c03 import base_assume
 
 ID = 'C01'
-ENGINE_B = [{'template': 't_layout', 'kinds': ['layout_'], 'max_quick': 12, 'max_thorough': 64,
+ENGINE_B = [{'template': 't_layout', 'kinds': ['layout_'], 'max_quick': 14, 'max_thorough': 64,
              # a single over-aligned field, a packed type, explicit addresses with gaps
              # ... and byte-array fields directly after generated padding
              'fixed': [[8, 1, 0, 0, 1, 16, 0, 3, 2, 4, 0, 0, 0, 0, 1], [8, 2, 1, 24, 0, 0, 1, 0, 0, 0, 1, 3, 0, 0, 1, 0, 3, 0, 1, 9, 0, 0, 1],
-                       [8, 1, 1, 16, 0, 0, 0, 3, 0, 8, 1, 8, 0, 0, 1], [8, 2, 1, 24, 0, 0, 0, 4, 0, 4, 0, 0, 0, 0, 0, 3, 0, 12, 1, 8, 0, 0, 1]]},
+                       [8, 1, 1, 16, 0, 0, 0, 3, 0, 8, 1, 8, 0, 0, 1], [8, 2, 1, 24, 0, 0, 0, 4, 0, 4, 0, 0, 0, 0, 0, 3, 0, 12, 1, 8, 0, 0, 1],
+                       # packed types whose later fields have a niche (bool): the compiler must keep the declared order
+                       [8, 3, 0, 0, 0, 0, 1, 0, 2, 0, 0, 0, 0, 0, 1, 0, 10, 0, 0, 0, 0, 0, 1, 0, 1, 0, 0, 0, 0, 0, 1],
+                       [8, 2, 0, 0, 0, 0, 1, 0, 0, 0, 0, 0, 0, 0, 1, 0, 10, 0, 0, 0, 0, 0, 1]]},
             # base sub-objects and vftable pointers (fixed witness programs from the inheritance / equivalence templates)
             {'template': 't_equiv', 'kinds': ['layout_'], 'max_quick': 4, 'max_thorough': 4,
              'fixed': [[8, 8, 16, 8, 8, 0, 0, 0, 1, 0, 0, 0, 0, 0, 1, 0], [8, 8, 16, 8, 16, 0, 0, 0, 0, 1, 0, 0, 1, 0, 1, 0], [8, 8, 16, 8, 0, 0, 1, 0, 0, 0, 0, 0, 0, 0, 0, 0], [8, 3, 8, 4, 5, 0, 0, 0, 1, 0, 0, 0, 0, 0, 0, 1]]},
